@@ -37,6 +37,8 @@ pub fn blocks(thorough: bool) -> Vec<Block> {
         b.push(Block::new(Universe::new("U_pairs{a,b}^<=5", &["a", "b"], 5, 2, false), thr(&[0], &[(1, 1), (2, 1), (1, 2)]), "r x {(1,1),(2,1),(1,2)} (a test case and the same plus a repeated block: optional grouped repetitions)"));
         b.push(Block::new(Universe::new("U_pairs{e9,1f4a9,a}^<=4", &["\u{e9}", "\u{1f4a9}", "a"], 4, 2, false), thr(&[E, E | X], &[(1, 1)]), "r x {e, e+x}"));
         b.push(Block::new(Universe::new("U_abc2{a,b,c}", &["a", "b", "c"], 2, 0, true), thr(&bases_all, &[(1, 1)]), "r x 9 bases"));
+        b.push(Block::new(u_prefix_counts(), thr(&[0], &[(1, 1), (2, 1)]), "r x {(1,1),(2,1)}"));
+        b.push(Block::new(u_prefix_counts_unit(), thr(&[0, X], &[(1, 1), (1, 2)]), "r x {{}, x} x {(1,1),(1,2)}"));
         b.push(Block::new(Universe::new("U_adv(units)", &units, 4, 1, false), thr(&[0, E, W, X, E | X], &[(1, 1), (1, 2)]), "r x {{}, e, w, x, e+x} x {(1,1),(1,2)}"));
         b.push(Block::new(Universe::new("U_adv(A_esc)", A_ESC, 3, 1, false), thr(&[0, E], &[(1, 1)]), "r x {{}, e}"));
         b.push(Block::new(Universe::new("U_a1-{a,1,-}", &["a", "1", "-"], 3, 2, false), thr(&[D | NW, W, D], &[(1, 1)]), "r x {d+W, w, d}"));
